@@ -356,6 +356,7 @@ func init() {
 		Real:        []string{"smtp.Server.Serve/handleConn", "smtp.Conn handleData/handleDataLMTP/handleBdat/reset/Close", "dataReader", "io.Pipe", "lineLimitReader", "net/textproto", "bufio"},
 		Stub:        []string{"net.Listener (SimListener)", "net.Conn (SimConn) with cut/RST/half-close/stall faults", "Backend/Session (SimBackend, reads to the end, propagates reader errors)", "clock (synctest)", "SMTP client (raw driver)"},
 		Assumptions: []string{"exhaustive over cut offsets of the generated corpus, not over all conversations", "reply positions are static because every command of the corpus is valid; replies are read from what the server wrote, delivered or not"},
+		Required:    []string{"cut_inside_end_marker", "cut_inside_bdat_transfer", "cut_inside_data_transfer", "cut_inside_message_of_exactly_the_size_limit", "cut_fin", "cut_rst", "cut_halfclose", "stall", "transfer_abandoned_by_RSET", "transfer_abandoned_by_QUIT"},
 		QuickRuns:   900, ThoroughRuns: 60000,
 	})
 }
